@@ -233,6 +233,40 @@ func checkC10(c *Ctx) {
 	// the lifetime announced (the package variables above) is the lifetime enforced: the expiry fields have no other source
 	checkTimeoutWriters(c, "C10.2", "lib.RegisteredDecoys")
 
+	// ---- C10.7 the New announcement describes the registration the station keeps: it is made by register(), for the
+	// tracked object (what registrationExists returned), not for the delivery that happened to trigger it
+	r.Rule("C10.7", "registerForDetector is invoked only by RegisteredDecoys.register, on the tracked registration", 1)
+	{
+		n := 0
+		for _, f := range c.funcsOfPkgs("pkg/station/lib", "cmd/application") {
+			eachInstr(f, func(in ssa.Instruction) {
+				ci, ok := in.(ssa.CallInstruction)
+				if !ok {
+					return
+				}
+				cc := ci.Common()
+				if cc.IsInvoke() || cc.StaticCallee() != nil {
+					return
+				}
+				_, fld, ok := fieldOwner(fieldLoadAddr(cc.Value))
+				if !ok || fld != "registerForDetector" {
+					return
+				}
+				n++
+				inRegister := strings.HasSuffix(fnName(f), "RegisteredDecoys).register")
+				tracked := false
+				if len(cc.Args) == 1 {
+					tracked = derivesOnlyFromCalls(cc.Args[0], "registrationExists", 0)
+				}
+				r.Check(inRegister && tracked, "C10.7", fnName(f)+": registerForDetector("+firstN(pathOf(cc.Args[0]), 40)+")", in.Pos(), fnName(f), "in register(), argument is the result of registrationExists",
+					"the New announcement is made outside register() or for an object other than the tracked registration: with two deliveries of one registration in flight (different registrant address or port override) the detector is told about the one the station does not keep")
+			})
+		}
+		if n == 0 {
+			r.Unk("C10.7", "registerForDetector call", token.NoPos, "", "no call through the registerForDetector field found")
+		}
+	}
+
 	// ---- C10.3 protocol set
 	r.Rule("C10.3", "transport protocols are TCP or UDP constants; PhantomProto only from GetProto", 5)
 	tcp := constIntOf(c.P, repoMod+"/proto", "IPProto_Tcp")
@@ -522,4 +556,47 @@ func checkClearContext(c *Ctx) {
 	if n == 0 {
 		r.Unk("C10.6", "clearDetector: Publish call", root.Pos(), fnName(root), "no Publish reachable from clearDetector")
 	}
+}
+
+
+// fieldLoadAddr: for a value loaded from a struct field (the function stored in r.registerForDetector), the field
+// address it was loaded from; nil otherwise.
+func fieldLoadAddr(v ssa.Value) ssa.Value {
+	if u, ok := v.(*ssa.UnOp); ok && u.Op == token.MUL {
+		return u.X
+	}
+	return nil
+}
+
+// derivesOnlyFromCalls: v is, through phis, only ever the result of a call of the named function.
+func derivesOnlyFromCalls(v ssa.Value, short string, depth int) bool {
+	if depth > 6 {
+		return false
+	}
+	switch x := v.(type) {
+	case *ssa.Phi:
+		for _, e := range x.Edges {
+			if !derivesOnlyFromCalls(e, short, depth+1) {
+				return false
+			}
+		}
+		return len(x.Edges) > 0
+	case *ssa.Call:
+		return calleeShort(&x.Call) == short
+	case *ssa.UnOp:
+		// a local that is only assigned such results
+		if al, ok := x.X.(*ssa.Alloc); ok && x.Op == token.MUL && al.Referrers() != nil {
+			n := 0
+			for _, ref := range *al.Referrers() {
+				if st, ok := ref.(*ssa.Store); ok && st.Addr == ssa.Value(al) {
+					n++
+					if !derivesOnlyFromCalls(st.Val, short, depth+1) {
+						return false
+					}
+				}
+			}
+			return n > 0
+		}
+	}
+	return false
 }
